@@ -84,7 +84,7 @@ def main():
               fail('c18-order-dependence', name=name, tags=tags, results=sorted(map(repr, results)))
           # both syntaxes agree whenever the OpenMetrics rendering is expressible and both parse
           ycar = next(iter(results)) if len(results) == 1 else None
-          if n >= 1 and ycar is not None and 'name' not in keys and all(v for v in vals) and \
+          if n >= 1 and ycar is not None and all(v for v in vals) and \
              all(k and '=' not in k and ',' not in k and '"' not in k for k in keys) and '{' not in name:
             for perm in itertools.permutations(tags):
               xo = openmetrics(name, perm)
